@@ -57,7 +57,9 @@ BasicPos == <<
   Pos("ref", "req", <<"ref">>),       Pos("union-branch", "req", <<"union">>),
   Pos("nullable", "null", <<>>),      Pos("optional-nullable", "optnull", <<>>),
   Pos("anon-struct", "req", <<"anon">>),
-  Pos("optional-array", "opt", <<"arr">>), Pos("optional-map", "opt", <<"map">>), Pos("optional-ref", "opt", <<"ref">>)
+  Pos("optional-array", "opt", <<"arr">>), Pos("optional-map", "opt", <<"map">>), Pos("optional-ref", "opt", <<"ref">>),
+  \* absent, null and [] are three documents for one value: the non-trivial transitivity witnesses of C13
+  Pos("optional-nullable>array", "optnull", <<"arr">>)
 >>
 NPlainPos == 6  \* plain (unconstrained) leaves are placed at the first NPlainPos positions
 DeepPos == <<
@@ -69,7 +71,10 @@ DeepPos == <<
   Pos("array>union-branch", "req", <<"union", "arr">>), Pos("union-branch>ref", "req", <<"ref", "union">>),
   Pos("array>nullable-ref", "req", <<"ref", "nullable", "arr">>),
   Pos("map>nullable-ref", "req", <<"ref", "nullable", "map">>),
-  Pos("recursive", "opt", <<"rec">>),                  Pos("ref>nullable", "req", <<"refnull">>)
+  Pos("recursive", "opt", <<"rec">>),                  Pos("ref>nullable", "req", <<"refnull">>),
+  \* three levels: collections of collections of referenced structs
+  Pos("array>array>ref", "req", <<"ref", "arr", "arr">>), Pos("map>array>ref", "req", <<"ref", "arr", "map">>),
+  Pos("array>map>ref", "req", <<"ref", "map", "arr">>),   Pos("map>map>ref", "req", <<"ref", "map", "map">>)
 >>
 
 WT(t, defs) == [t |-> t, defs |-> defs]
@@ -185,6 +190,31 @@ Init == IF Mode = "index"
         ELSE si \in (Ids \cap DOMAIN Catalogue) /\ dx \in Docs(Catalogue[si].schema, Fuel)
 Next == UNCHANGED vars
 Spec == Init /\ [][Next]_vars
+
+(* ------------- design-level sanity of the specification itself (checked by TLC on every state) ------------- *)
+\* the labels Variants attaches to a document agree with what Accepts / StrictRejects / ValidateErrs say about it
+CurS == DefsFn(Catalogue[si].schema)
+CurT == CurS[Catalogue[si].schema.root]
+LabelsConsistent ==
+  Mode = "cases" =>
+    LET ac == Accepts(CurS, CurT, dx.d)
+        sr == StrictRejects(CurS, CurT, dx.d)
+        ve == ValidateErrs(CurS, CurT, dx.d, <<>>)
+    IN /\ dx.f \in {"base", "alt"} => (ac /\ ~sr /\ ve = {})
+       /\ dx.f \in {"DropRequired", "NullRequired", "AddUndeclared", "WrongType"} => (~ac /\ sr)
+       /\ dx.f = "BreakBound" => (~ac /\ ~sr /\ ve # {})
+       /\ dx.f = "DropDefaulted" => (~ac /\ ~sr)
+       /\ dx.f = "NonMember" => ~ac
+       /\ ac => (~sr /\ ve = {})                       \* a document the schema accepts is never rejected and never invalid
+\* Norm is idempotent, keeps acceptance and changes nothing but optional explicit nulls (so it is Eq-neutral)
+NormSane ==
+  (Mode = "cases" /\ Accepts(CurS, CurT, dx.d)) =>
+    LET n == Norm(CurS, CurT, dx.d) IN
+    /\ Accepts(CurS, CurT, n)
+    /\ Norm(CurS, CurT, n) = n
+    /\ Eq(n, dx.d)
+\* Eq is reflexive and coarser than JSON equality
+EqSane == Mode = "cases" => (Eq(dx.d, dx.d) /\ JsonEq(dx.d, dx.d))
 
 Emit ==
   IF Mode = "index"
